@@ -23,7 +23,12 @@ import (
 const (
 	findingF03  = "F03-unary-last-binary"
 	findingF04a = "F04a-empty-operator-table"
+	findingF04b = "F04b-stack-overflow-many-priorities"
 )
+
+// deepTableLevels: from this many priority levels on, 64 KiB of nested brackets need more than the
+// 512 MB a goroutine stack may grow to (measured: 24 levels survive, 28 do not).
+const deepTableLevels = 25
 
 // ---------------------------------------------------------------------------------------------
 // configurations
@@ -52,6 +57,10 @@ var tables = map[string]*tableSpec{
 	"f03": {name: "f03", ops: []string{"+", "-"}, unary: []string{"-"}, idents: true, number: true},
 	// no binary operator at all (a parser for literals, lists and maps only)
 	"noops": {name: "noops", unary: []string{"-"}, idents: true, number: true, str: true},
+	// 28 priority levels (value.New() has 17): every nesting level of the input costs two stack
+	// frames per priority level
+	"deep28": {name: "deep28", ops: []string{"|", "&", "=", "!=", "~", "<", ">", "<=", ">=", "+", "-", "<<", ">>", "*", "%", "/", "^", "@", "#", "$", "?",
+		"&&", "||", "==", "**", "++", "<>", "^^"}, unary: []string{"-", "!"}, idents: true, number: true},
 	// nothing optional configured: one operator, no prefix operators, nil Identifiers, no number
 	// parser, no string converter, no keywords, no optimizer
 	"bare": {name: "bare", ops: []string{"+"}},
